@@ -12,6 +12,8 @@
 //                              (names come from c10_enum_list.inc written by translators/gen_status.py)
 //   pred LO HI [extra...]      print `pred c solved solvedOrFeas indiff infOrUnb infeasible unbounded retrieved`
 //                              for every code LO..HI and the extra codes
+//   addres                     lines `canReplace a:b a:b …` on stdin: SolveResultRegistry::AddSolveResults on a fresh registry;
+//                              prints the resulting set (entries added by this call marked `+`) or `error`
 //   table                      run the driver with `-!` (prints the solve result table on stdout)
 //   report STUB [options]      (option `@noampl`: run without -AMPL but with wantsol=1 and capture what the driver prints;
 //                              input field 6 `flags`: 1 original objective available (feasrelax), 2 backend adds a message line,
@@ -23,6 +25,7 @@
 //                              driver (-AMPL) on STUB.nl, re-read STUB.sol and print
 //                              `report code nobj primal dual | objShown=<0/1> objValText=<0/1: the scripted value 4242.5 is printed> code=<objno code> nx=<#primal> ny=<#dual> hs=<code passed to HandleSolution> hsobj=<nan|val> nobjpost=<#objective values after postsolve>`
 #include <cstdio>
+#include <algorithm>
 #include <unistd.h>
 #include <fcntl.h>
 #include <cstdlib>
@@ -266,6 +269,30 @@ int main(int argc, char** argv) {
     char* av[] = { a0, a1, nullptr };
     return mp::RunBackendApp(av, Create);
   }
+  if (mode == "addres") {
+    // lines `canReplace a-b a-b ...`: AddSolveResults on a fresh SolveResultRegistry (pre-registered table + the entries)
+    std::string line;
+    while (std::getline(std::cin, line)) {
+      std::istringstream is(line);
+      int cr; is >> cr;
+      mp::SolveResultRegistry::SRRegMap sm;
+      std::string tok; int k = 0;
+      while (is >> tok) {
+        int a, b;
+        if (std::sscanf(tok.c_str(), "%d:%d", &a, &b) != 2) continue;
+        sm.insert(mp::SolveResultRegistry::RegEntry(a, b, "new" + std::to_string(k++)));
+      }
+      mp::SolveResultRegistry reg;
+      std::string out;
+      try {
+        reg.AddSolveResults(sm, cr != 0);
+        for (const auto& e : reg.GetSolveResultRegistry())
+          out += " " + std::to_string(e.first()) + ":" + std::to_string(e.last()) + (e.descr().rfind("new", 0) == 0 ? "+" : "");
+      } catch (const std::exception&) { out = " error"; }
+      std::printf("addres %s |%s\n", line.c_str(), out.c_str());
+    }
+    return 0;
+  }
   if (mode == "report") {
     std::string stub = argv[2];
     std::string line;
@@ -336,6 +363,27 @@ int main(int argc, char** argv) {
       bool extra = si.msg.find("c10 extra message line") != std::string::npos;
       bool roundmsg = si.msg.find("rounded to integer") != std::string::npos;
       bool altrange = si.msg.find("with objective values") != std::string::npos;
+      // order of the recognisable pieces of the message (compared with the order of ReportSolution2AMPL's steps in the model)
+      std::string order;
+      {
+        struct M { const char* name; const char* text; };
+        static const M ms[] = { {"status", kStatusText}, {"feasrelax", "feasrelax "}, {"objective", "objective "},
+                                {"individual", "Individual objective values:"}, {"original", "Original objective = "},
+                                {"kappa", "kappa value: "}, {"extra", "c10 extra message line"},
+                                {"alt", " alternative solution(s)"}, {"warnings", "------------ WARNINGS"} };
+        std::vector<std::pair<size_t, std::string>> pos;
+        for (const M& m : ms) {
+          size_t p = si.msg.find(m.text);
+          if (!std::strcmp(m.name, "objective")) {            // the piece "objective {}" directly follows "; " or "; feasrelax "
+            size_t q = si.msg.find("; objective "), r2 = si.msg.find("; feasrelax objective ");
+            p = q != std::string::npos ? q + 2 : r2 != std::string::npos ? r2 + 12 : std::string::npos;
+          }
+          if (!std::strcmp(m.name, "feasrelax")) { size_t q = si.msg.find("; feasrelax "); p = q != std::string::npos ? q + 2 : std::string::npos; }
+          if (p != std::string::npos) pos.push_back({p, m.name});
+        }
+        std::sort(pos.begin(), pos.end());
+        for (auto& pr_ : pos) order += (order.empty() ? "" : ",") + pr_.second;
+      }
       // "objective <value>" is written by ReportSolution2AMPL as "; objective {}" / "; feasrelax objective {}"
       bool shown = si.msg.find("; objective ") != std::string::npos || si.msg.find("; feasrelax objective ") != std::string::npos;
       bool shownval = si.msg.find(objtxt) != std::string::npos;
@@ -343,13 +391,13 @@ int main(int argc, char** argv) {
       bool statusShown = si.msg.find(kStatusText) != std::string::npos;
       char hsobj[64];
       if (std::isnan(g.hs_obj)) std::strcpy(hsobj, "nan"); else std::snprintf(hsobj, sizeof hsobj, "%.17g", g.hs_obj);
-      std::printf("\nreport %d %d %d %d %d %d | objShown=%d objValText=%d anyObjWord=%d status=%d code=%d objno=%d nx=%ld ny=%ld hs=%d hsobj=%s hsx=%d hsy=%d samemsg=%d nobjpost=%ld multi=%d nalt=%d altcodes=%s hfs=%s altmsg=%d fr=%d orig=%d kappamsg=%d extra=%d roundmsg=%d altrange=%d stdoutmsg=%d stdoutobj=%d sufs=%s rc=%d\n",
+      std::printf("\nreport %d %d %d %d %d %d | objShown=%d objValText=%d anyObjWord=%d status=%d code=%d objno=%d nx=%ld ny=%ld hs=%d hsobj=%s hsx=%d hsy=%d samemsg=%d nobjpost=%ld multi=%d nalt=%d altcodes=%s hfs=%s altmsg=%d fr=%d orig=%d kappamsg=%d extra=%d roundmsg=%d altrange=%d stdoutmsg=%d stdoutobj=%d sufs=%s order=%s rc=%d\n",
                   code, nobj, pr, du, nalt, flags, (int)shown, (int)shownval, (int)anyobj, (int)statusShown, si.code, si.objno, si.nx, si.ny,
                   g.hs_called ? g.hs_code : -12345, hsobj, (int)g.hs_x, (int)g.hs_y,
                   (int)(rstrip(si.msg) == rstrip(g.hs_msg)), g.nobj_post, (int)g.need_multi, nfiles,
                   altcodes.empty() ? "-" : altcodes.c_str(), hfs.empty() ? "-" : hfs.c_str(), altstatus,
                   (int)fr, (int)orig, (int)kappamsg, (int)extra, (int)roundmsg, (int)altrange, stdoutmsg, stdoutobj,
-                  si.sufs.empty() ? "-" : si.sufs.c_str(), rc);
+                  si.sufs.empty() ? "-" : si.sufs.c_str(), order.empty() ? "-" : order.c_str(), rc);
     }
     return 0;
   }
